@@ -67,6 +67,9 @@ def corpus(tier):
                 ("gy-prehash", y_setting(b"$gy$", 12, 32)),
                 ("7-64M", s7_setting(14, 32)),
                 ("7-p3-r1", s7_setting(8, 1, 3))]
+    # requests that fail inside the KDF, after parsing (a region may already be mapped then)
+    big += [("y-rom", b"$y$j7557$LdJMENpBABJJ3hIHjB1Bi."), ("gy-rom", b"$gy$j7557$LdJMENpBABJJ3hIHjB1Bi."),
+            ("y-upgrade", b"$y$j752.$LdJMENpBABJJ3hIHjB1Bi."), ("y-N2", b"$y$j.T$abcdefgh"), ("7-N2", b"$7$/..../....abcdefgh")]
     for name, s in big:
         c.append(("rn/" + name, [rt.obj_line(0, fill="r", seed=3)], rt.crypt_line("crypt_rn", 0, ph, s)))
         c.append(("ra/" + name, ["raobj 2 -1 0"], rt.crypt_line("crypt_ra", 2, ph, s)))
@@ -141,6 +144,11 @@ def do_case(item):
             acc.inconc("timeout unfaulted " + name)
         return acc
     r0 = res[len(base_setup) + len(setup0)]
+    # the un-faulted call itself must not leave mappings or heap blocks behind either
+    if int(r0.get("maps", "0")) > 0:
+        acc.violation("%s/mapping-leak/%s" % (PID, name.split("/")[0]),
+                      "%s: %s library mappings still live after the un-faulted call (ev=%s)" % (name, r0.get("maps"), r0.get("ev")),
+                      rt.replay_obj(FL, base_setup + setup0 + [call]))
     reqs = parse_ev(r0.get("ev", "."))
     n = len(reqs)
     acc.sets["traces"].add((name.split("/")[0], "".join(k + ("h" if h else "") + ("e" if "e" in f or "X" in f else "") for k, _, h, f, _ in reqs)))
